@@ -1,2 +1,13 @@
 //! Reference models, written from the specifications and free of the library's code.
 pub mod slice;
+pub mod screen;
+pub mod ecma48;
+pub mod sgr;
+pub mod kitty;
+pub mod sixel;
+pub mod regex;
+pub mod b64;
+pub mod deque;
+pub mod keymap;
+pub mod kernel;
+pub mod keytable;
